@@ -109,15 +109,46 @@ func (h *H) Step(line string) {
 			rc := &regComp{info: info, id: id, m: info.newMap(h.w)}
 			h.comps[n] = rc
 			h.compByID[id.Index()] = rc
+			h.regLog = append(h.regLog, n)
 		}
 		h.result(class, strconv.Itoa(int(id.Index())))
+	case "rebuild":
+		// a NEW world with the same component types registered in the same order; dumps survive
+		if len(toks) != 3 {
+			h.emit("bad-op")
+			return
+		}
+		c, _ := strconv.Atoi(toks[1])
+		r, _ := strconv.Atoi(toks[2])
+		log, dumps, maxc, snap, ln := h.regLog, h.dumps, h.maxComp, h.snap, h.lineNo
+		h.resetWorld(c, r, maxc, snap)
+		h.lineNo, h.dumps = ln, dumps
+		class := try(func() {
+			for _, n := range log {
+				if n >= 0 {
+					info := &staticComps[n]
+					id := info.id(h.w)
+					rc := &regComp{info: info, id: id, m: info.newMap(h.w)}
+					h.comps[n] = rc
+					h.compByID[id.Index()] = rc
+				} else {
+					ecs.TypeID(h.w, fillerType(-n-1))
+					h.fillers++
+				}
+			}
+		})
+		h.regLog = log
+		h.result(class, "")
 	case "fill":
 		cnt, _ := strconv.Atoi(toks[1])
 		last := ""
 		for i := 0; i < cnt; i++ {
 			tp := fillerType(h.fillers)
-			h.fillers++
 			last = try(func() { ecs.TypeID(h.w, tp) })
+			if last == "" {
+				h.regLog = append(h.regLog, -h.fillers-1)
+				h.fillers++ // a rejected registration is retried with the same type
+			}
 		}
 		h.result(last, "")
 	case "new":
@@ -323,6 +354,39 @@ func (h *H) Step(line string) {
 				class = "queryGet" // non-debug build: nil table
 			}
 		}
+		h.result(class, res)
+	case "qgetc":
+		// qgetc qN cM: UnsafeQuery.Get for one component, which may be outside the filter or missing
+		// in the current archetype (only issued while the query has a current row)
+		if len(toks) != 3 {
+			h.emit("bad-op")
+			return
+		}
+		ql, ok := numOf(toks[1])
+		qo, ok2 := h.queries[ql]
+		cn, ok3 := numOf(toks[2])
+		if !ok || !ok2 || !ok3 || qo.uq == nil {
+			skip()
+			return
+		}
+		rc, ok4 := h.comps[cn]
+		if !ok4 {
+			skip()
+			return
+		}
+		var res string
+		class := try(func() {
+			p := qo.uq.Get(rc.id)
+			if p == nil {
+				res = "nil"
+				return
+			}
+			v := rc.info.at(p)
+			if !v.Check() {
+				res = "BAD"
+			}
+			res += strconv.FormatInt(v.GetV(), 10)
+		})
 		h.result(class, res)
 	case "newb":
 		l, ok1 := numOf(toks[1])
